@@ -83,9 +83,13 @@ static std::string run_trace(unsigned f, const std::vector<Op>& ops, int sink, R
         else e.reset(new CDNS::CdnsEncoder(path, CDNS::CborOutputCompression::NO_COMPRESSION));
         unsigned salt = 0;
         for (auto& o : fill) { apply(*e, o, salt); exp += expected(o, salt); salt++; }
-        size_t lvl = e->m_p - e->m_buffer;
-        if (lvl != f % 2048 && !(f == 2048 && lvl == 2048)) { key = "filler"; return "filler did not reach fill level " + std::to_string(f) + " (got " + std::to_string(lvl) + ")"; }
-        if (e->m_avail != 2048 - lvl) { key = "avail"; return "m_avail inconsistent with fill level"; }
+        // fill level read back through the private members when they exist under these names (diagnostic; the verdict is the output bytes)
+        long lvl = PEEK(*e, (long)(o.m_p - o.m_buffer), -1L); long av = PEEK(*e, (long)o.m_avail, -1L);
+        if (lvl >= 0) {
+            if ((size_t)lvl != f % 2048 && !(f == 2048 && lvl == 2048)) { key = "filler"; return "filler did not reach fill level " + std::to_string(f) + " (got " + std::to_string(lvl) + ")"; }
+            if (av >= 0 && av != 2048 - lvl) { key = "avail"; return "m_avail inconsistent with fill level"; }
+            r.count("fill_levels_confirmed");
+        }
         r.count("states_visited");
         for (auto& o : ops) {
             std::string x = expected(o, salt);
@@ -93,8 +97,8 @@ static std::string run_trace(unsigned f, const std::vector<Op>& ops, int sink, R
             r.count("transitions");
             if (ret != x.size() && why.empty()) { key = std::string("return|") + KN[o.k]; why = std::string("return value of ") + KN[o.k] + "(" + std::to_string(o.a) + ") is " + std::to_string(ret) + ", bytes of preferred encoding " + std::to_string(x.size()); }
             exp += x;
-            size_t l2 = e->m_p - e->m_buffer;
-            if ((l2 > 2048 || e->m_avail != 2048 - l2) && why.empty()) { key = std::string("avail|") + KN[o.k]; why = "buffer bookkeeping inconsistent after " + std::string(KN[o.k]); }
+            long l2 = PEEK(*e, (long)(o.m_p - o.m_buffer), -1L), a2 = PEEK(*e, (long)o.m_avail, -1L);
+            if (l2 >= 0 && a2 >= 0 && (l2 > 2048 || a2 != 2048 - l2) && why.empty()) { key = std::string("avail|") + KN[o.k]; why = "buffer bookkeeping inconsistent after " + std::string(KN[o.k]); }
         }
     } // destroy -> flush
     if (sink == MEM) got = outs.empty() ? "" : outs[0];
